@@ -296,6 +296,11 @@ class Toks:
 # known findings
 # ----------------------------------------------------------------------------------
 
+def repro_only(kf: dict, rec: dict) -> bool:
+    """findings that are listed with one fixed reproducer only: nothing but that reproducer is classified as the finding"""
+    return str(kf.get("classifier", "")).startswith("repro-only") and rec.get("case", {}).get("repro") == kf.get("id")
+
+
 def load_known() -> list[dict]:
     p = VERIF / "known_findings.json"
     if not p.exists():
